@@ -87,7 +87,12 @@ def _generator_aliases(fn):
     return good, bad
 
 
-def _draw_sites(fn):
+def _draws(fn, ci, depth=0) -> bool:
+    """does running fn consume random numbers (directly, or through own private methods it calls)?"""
+    return depth < 5 and bool(_draw_sites(fn, ci, depth + 1))
+
+
+def _draw_sites(fn, ci=None, depth=0):
     """(call, kind) kind in global | rng | scipy | forward | alias"""
     out = []
     aliases, _ = _generator_aliases(fn)
@@ -95,6 +100,14 @@ def _draw_sites(fn):
         if not isinstance(c, ast.Call):
             continue
         cn = call_name(c) or ""
+        if ci is not None and cn.startswith("self._") and cn.count(".") == 1 and cn != "self._sample":
+            r = ci.lookup(cn[5:])
+            if r is not None and r[1] is not fn:
+                # an own helper: the generator has to reach it exactly when it draws itself (a helper that only post-processes numbers drawn by the
+                # caller needs none), whatever it is called
+                if _draws(r[1], ci, depth):
+                    out.append((c, "forward"))
+                continue
         if "." in cn and cn.split(".")[0] in aliases:
             out.append((c, "alias"))
         elif cn.startswith(("np.random.", "numpy.random.")) and cn.split(".")[-1] not in ("RandomState", "default_rng", "seed"):
@@ -121,7 +134,7 @@ def _r1(chk, repo, samplers):
             continue
         params = func_params(fn)
         g = CFG(fn)
-        sites = _draw_sites(fn)
+        sites = _draw_sites(fn, ci)
         if "rng" not in params:
             if any(k in ("global", "rng", "scipy") for _, k in sites):
                 chk.fail("C05-R1", inst, site(repo, fn), "draws random numbers but has no rng parameter", fn)
